@@ -334,7 +334,7 @@ func scalarRealizer(p *Program, u *Unit, o *Obligation, repo, verif, dir string)
 		terms = append(terms, c.strLits[s])
 	}
 	goalNeg := and(o.Guard, not(o.Goal))
-	vals, err := getValues(c.queryN(goalNeg, o.Extra, false, true, 0), o.File, dedup(terms))
+	vals, err := getValues(c.queryN(goalNeg, o.Extra, false, true, 0, o.SkipTags), o.File, dedup(terms))
 	if err != nil {
 		return &replayResult{Attempted: true, Note: "could not extract values from the model: " + err.Error()}
 	}
